@@ -2,6 +2,7 @@ use crate::runner::{Ctx, Obs, R};
 use serde_json::Value as J;
 
 pub mod c03;
+pub mod c04;
 pub mod c16;
 pub mod c17;
 
@@ -14,6 +15,7 @@ pub struct Prop {
 pub fn all() -> Vec<Prop> {
     vec![
         Prop { id: "C03", run: c03::run, replay: c03::replay },
+        Prop { id: "C04", run: c04::run, replay: c04::replay },
         Prop { id: "C16", run: c16::run, replay: c16::replay },
         Prop { id: "C17", run: c17::run, replay: c17::replay },
     ]
